@@ -515,9 +515,12 @@ Qed.
 End Walk.
 
 (** ** the call *)
-Theorem three_link_done E n ld rd c w0 cnt w' cnt' :
+Lemma three_link_shape E n ld rd c w0 cnt w' cnt' :
   wf3 n w0 -> okd3p n w0 ld -> okd3p n w0 rd -> ld <> rd ->
-  run E (three_link n ld rd) c w0 cnt = (Done tt, w', cnt') -> wf3 n w'.
+  run E (three_link n ld rd) c w0 cnt = (Done tt, w', cnt') ->
+  exists hl hr rest bl,
+    fchain w0 ld rd ((hl, hr) :: rest) /\ bchain w0 ld rd bl /\ Good n w0 (bl ++ (hl, hr) :: rest) /\
+    ends_ok w0 ld rd hl hr bl /\ w' = links w0 (bl ++ (hl, hr) :: rest).
 Proof.
   intros W (Hl0 & Hln & Hlu) (Hr0 & Hrn & Hru) Hne Hr. unfold three_link in Hr.
   rewrite run_bind in Hr.
@@ -544,8 +547,8 @@ Proof.
     rewrite El, N.eqb_refl in Hr. cbn [andb] in Hr.
     destruct (N.eqb_spec (beta w0 0 hr) rd) as [Er|]; cbn [negb] in Hr; [|discriminate].
     destruct (N.eqb_spec ld 0); [contradiction|]. cbn [run] in Hr. injection Hr as <- <-.
-    destruct (closure n w0 ld rd W hl hr rest [] HF (bc0 _ _ _) HG (or_introl (conj El (conj Er eq_refl)))) as (C1 & C2 & C3).
-    apply (wf3_links n w0 ((hl, hr) :: rest) W); [apply HG|apply HG|exact C1|exact C2|exact C3].
+    exists hl, hr, rest, []. split; [exact HF|]. split; [apply bc0|]. split; [exact HG|].
+    split; [left; auto|reflexivity].
   - (* the left face is open *)
     rewrite Ez in Hr. destruct (N.eqb_spec 0 ld); [congruence|]. cbn [andb] in Hr. rewrite N.eqb_refl in Hr.
     destruct (N.eqb_spec (beta w0 0 hr) 0) as [Erz|]; cbn [negb] in Hr; [|discriminate].
@@ -556,8 +559,18 @@ Proof.
     rewrite !links_other in Hr by lia.
     pose proof (bwd_done n w0 ld rd E W (fuel_of n) [] ((hl, hr) :: rest) c cnt2 w' cnt'
                   (bc0 _ _ _) HG (fchain_base _ _ _ _ HF) Hr) as (bl & HB & HG' & -> & E3 & E4).
-    destruct (closure n w0 ld rd W hl hr rest bl HF HB HG' (or_intror (conj Ez (conj Erz (conj E3 E4))))) as (C1 & C2 & C3).
-    apply (wf3_links n w0 (bl ++ (hl, hr) :: rest) W); [apply HG'|apply HG'|exact C1|exact C2|exact C3].
+    exists hl, hr, rest, bl. split; [exact HF|]. split; [exact HB|]. split; [exact HG'|].
+    split; [right; auto|reflexivity].
+Qed.
+
+Theorem three_link_done E n ld rd c w0 cnt w' cnt' :
+  wf3 n w0 -> okd3p n w0 ld -> okd3p n w0 rd -> ld <> rd ->
+  run E (three_link n ld rd) c w0 cnt = (Done tt, w', cnt') -> wf3 n w'.
+Proof.
+  intros W Ol Or Hne Hr.
+  destruct (three_link_shape E n ld rd c w0 cnt w' cnt' W Ol Or Hne Hr) as (hl & hr & rest & bl & HF & HB & HG & He & ->).
+  destruct (closure n w0 ld rd W hl hr rest bl HF HB HG He) as (C1 & C2 & C3).
+  apply (wf3_links n w0 (bl ++ (hl, hr) :: rest) W); [apply HG|apply HG|exact C1|exact C2|exact C3].
 Qed.
 
 End Link3.
